@@ -98,6 +98,7 @@ type FnCtx struct {
 	obls     []*Obligation
 	loopOrd  map[ast.Node]int
 	callOrd  map[ast.Node]string
+	inAxiom  bool // a library axiom is being translated (quantifiers over concrete pointer types are relativised)
 	boxed    map[types.Object]bool
 	pre      *State // state at function entry (for old())
 	results  []*types.Var
